@@ -4,6 +4,7 @@ def pairs():
     return {
       "free_block_delayed_mt": F("free_block_delayed_mt", "h_free_block_delayed_mt", ["mi_free_block_delayed_mt"]),
       "thread_free_collect": R("thread_free_collect", "h_thread_free_collect", ["_mi_page_thread_free_collect"]),
-      "delayed_free_partial": R("delayed_free_partial", "h_delayed_free_partial", ["_mi_heap_delayed_free_partial"], mem_gb=12, unwind=6, defs=["-DVC_NO_INIT_C"], unwindset={"_mi_heap_delayed_free_partial.0": 4, "_mi_heap_delayed_free_partial.1": 5, "_mi_heap_delayed_free_partial.2": 4}),   # integer->pointer links are case-split over all objects: keep the big statics of init.c out
+      "delayed_free_partial": R("delayed_free_partial", "h_delayed_free_partial", ["_mi_heap_delayed_free_partial"], mem_gb=30, unwind=6, defs=["-DVC_NO_INIT_C"], unwindset={"_mi_heap_delayed_free_partial.0": 4, "_mi_heap_delayed_free_partial.1": 5, "_mi_heap_delayed_free_partial.2": 4}),   # integer->pointer links are case-split over all objects: keep the big statics of init.c out
+      "queue_append": R("queue_append", "h_queue_append", ["_mi_page_queue_append", "_mi_page_use_delayed_free", "_mi_page_try_use_delayed_free"], unwind=12),
       "try_use_delayed_free": R("try_use_delayed_free", "h_try_use_delayed_free", ["_mi_page_try_use_delayed_free"]),
     }
